@@ -591,3 +591,9 @@ Print Assumptions C18_source_expand_trx.
 Theorem C18_source_expand_modes : forall ms, g_expand_modes ms = expand_modes ms.
 Proof. exact gen_expand_modes. Qed.
 Print Assumptions C18_source_expand_modes.
+(* the API container: the caller's payload and extra items are copied before the in-place conversion; the six core sections *)
+Theorem C18_source_api_section :
+  g_api_payload_copied = true /\ g_api_item_copied = true /\
+  g_api_core_keys = [TOPO_NMSP; SERV_NMSP; EQPT_NMSP; SIM_PARAMS_NMSP; EDFA_CONFIG_NMSP; RESP_NMSP].
+Proof. exact gen_api_section. Qed.
+Print Assumptions C18_source_api_section.
